@@ -539,6 +539,8 @@ def run(chk):
     chk.guard(c07.rule_r5, chk, rid="C06-R9")
     from .. import variants
     chk.guard(variants.apply, chk, "C06-R6", [("irispie.simultaneous._simulate", "Inlay.simulate")])
+    from .. import unused as _unused
+    chk.guard(_unused.apply, chk, "C06-R91")
     from .. import args as _args
     chk.guard(_args.apply, chk, "C06-R90", {'frames', 'period_by_period', 'simultaneous', 'stacked_time'}, 1)
     chk.assumptions = [
